@@ -176,6 +176,29 @@ func maker(id int, calls int, deep int) M {
 	return p
 }
 
+// tailCapture: a method captures a local in a closure and then leaves through a tail call that
+// passes the closure on; the captured variable must survive the re-use of the frame.
+func tailCapture(id int, variant int) M {
+	defs := map[string]M{}
+	idDef := Def([]string{"c", "pad"}, cloTy, false, B(Let("q", "Int", Bin("*", Var("pad"), Int(3))), Print(Var("q")), Return(Var("c"))))
+	idDef["ptypes"] = L{cloTy, "Int"}
+	defs["pass"] = idDef
+	body := B(Let("x", "Int", Bin("*", Var("a"), Int(10))),
+		Lam("inc", nil, "Int", B(Set("x", Bin("+", Var("x"), Int(1))), Return(Var("x")))))
+	if variant%2 == 1 {
+		body = append(body, CallCDecl("r0", "inc"), Print(Var("r0")))
+	}
+	body = append(body, TCall("pass", Var("inc"), Int(100+variant)))
+	defs["mk"] = Def([]string{"a"}, cloTy, false, body)
+	main := B(CallDecl("c1", "mk", Int(3)), CallCDecl("v1", "c1"), Print(Var("v1")), CallCDecl("v2", "c1"), Print(Var("v2")),
+		CallDecl("c2", "mk", Int(4)), CallCDecl("w1", "c2"), Print(Var("w1")), CallCDecl("v3", "c1"), Print(Var("v3")), Return(Int(0)))
+	defs["main_"] = Def(nil, "Int", false, main)
+	p := Prog(id, defs)
+	p["desc"] = fmt.Sprintf("closure over a local survives a tail call variant=%d", variant)
+	p["tags"] = "capture_then_tail_call"
+	return p
+}
+
 // shared: two closures and the enclosing scope share one variable
 func shared(id int, order int) M {
 	ops := []M{
@@ -263,6 +286,10 @@ func Corpus(rng *rand.Rand, nRandom int, firstID int, deepMax int) []M {
 	for o := 0; o < 4; o++ {
 		id++
 		add(shared(id, o))
+	}
+	for v := 0; v < 2; v++ {
+		id++
+		add(tailCapture(id, v))
 	}
 	for _, k := range []string{"forin", "fornum", "while", "loop"} {
 		for _, m := range []bool{false, true} {
